@@ -58,6 +58,7 @@ func (e *Engine) VerifyFunc(key string, small bool) *FnCtx {
 		g := envPre.tr(c.E)
 		fc.facts = append(fc.facts, Fact{Text: "(assert " + g.T + ")", Tag: "pre:" + c.Label})
 	}
+	fc.nPreFacts = len(fc.facts)
 	fr.run(entry, "true")
 	// postconditions
 	for _, r := range fr.rets {
